@@ -197,6 +197,34 @@ def file_models(files, calls):
             if n == sheet_name:
                 return mk(r)
         raise PyRaise("ValueError", None, f"Worksheet named '{sheet_name}' not found")
+    class _Named(PyModel):
+        def __init__(self, **kw):
+            self.__dict__.update(kw)
+
+    class ExcelFile(PyModel):
+        """pd.ExcelFile(path): a workbook handle - sheet_names, parse(sheet_name=...), usable in `with`; `.book.active` is the tab that
+        was selected when the workbook was saved, which is NOT necessarily the first one (here: the last sheet)"""
+        def __init__(self, path, **kw):
+            if kw:
+                raise AnalysisAbort(f"pd.ExcelFile keyword(s) {sorted(kw)}")
+            if path not in files:
+                raise PyRaise("FileNotFoundError", None, str(path))
+            self.path = path
+            self.sheet_names = [n for n, _ in files[path]["sheets"]]
+            self.book = _Named(active=_Named(title=self.sheet_names[-1]), sheetnames=list(self.sheet_names))
+
+        def parse(self, sheet_name=0, **kw):
+            return read_excel(self.path, sheet_name=sheet_name, **kw)
+
+        def close(self):
+            pass
+
+        def __enter__(self):
+            return self
+
+        def __exit__(self, *a):
+            return False
+
     class _MultiIndexType(PyModel):
         """pd.MultiIndex as a type: the tables of this world (read from files) never carry one"""
         def isinstance_check(self, v):
@@ -206,7 +234,7 @@ def file_models(files, calls):
         def from_product(self, iterables, names=None, **k):
             from ..pdmodel import MultiIndexType
             return MultiIndexType().from_product(iterables, names=names, **k)
-    return {"pandas.read_csv": read_csv, "pandas.read_excel": read_excel, "pandas.MultiIndex": _MultiIndexType()}
+    return {"pandas.read_csv": read_csv, "pandas.read_excel": read_excel, "pandas.MultiIndex": _MultiIndexType(), "pandas.ExcelFile": ExcelFile}
 
 
 # ------------------------------------------------------------------ the checker
@@ -624,7 +652,7 @@ def from_files_cases(cx):
             it = w.it
             files = {
                 "time.f": {"kind": "dim", "sheets": [("s1", [["t0"], ["t1"], ["t2"]]), ("s2", [["zz"]])]},
-                "aa.f": {"kind": "dim", "sheets": [("s1", [["a0", "a1"]]), ("s2", [["zz"]])]},
+                "aa.f": {"kind": "dim", "sheets": [("s1", [["a0", "a1"]]), ("s2", [["yy"]])]},
                 "p.f": {"kind": "param", "sheets": [("s1", None), ("s2", None)]},
             }
             calls = []
